@@ -1560,3 +1560,92 @@ func (l *BadE8log) cap(max int64) {
 		l.next = l.last - max + 1
 	}
 }
+
+type BadZ2off struct {
+	done chan struct{}
+	pkts chan int
+}
+
+func (s *BadZ2off) Push(v int) {
+	select {
+	case <-s.done:
+	case s.pkts <- v:
+	}
+}
+
+func (s *BadZ2off) loop(fail func(int) bool) {
+	pkts := s.pkts
+	for {
+		select {
+		case <-s.done:
+			return
+		case v := <-pkts:
+			if fail(v) {
+				pkts = nil
+			}
+		}
+	}
+}
+
+type BadZ2self struct {
+	done chan struct{}
+	reqs chan int
+	tick chan struct{}
+}
+
+func (s *BadZ2self) Force(v int) {
+	select {
+	case <-s.done:
+	case s.reqs <- v:
+	}
+}
+
+func (s *BadZ2self) loop() {
+	for {
+		select {
+		case <-s.done:
+			return
+		case <-s.reqs:
+		case <-s.tick:
+			s.Force(0)
+		}
+	}
+}
+
+// ---- Z1 (method form): a locked getter's result handed to a locked mutator ---------------------------------------------------------------
+
+type z1buf struct {
+	mu   sync.Mutex
+	head uint16
+	q    map[uint16]int
+}
+
+func (b *z1buf) Head() uint16 {
+	b.mu.Lock()
+	defer b.mu.Unlock()
+	return b.head
+}
+
+func (b *z1buf) PopAt(seq uint16) int {
+	b.mu.Lock()
+	defer b.mu.Unlock()
+	v := b.q[seq]
+	delete(b.q, seq)
+	b.head++
+	return v
+}
+
+type z1owner struct {
+	mu  sync.Mutex
+	buf *z1buf
+}
+
+func (o *z1owner) GoodZ1pop() int {
+	o.mu.Lock()
+	defer o.mu.Unlock()
+	return o.buf.PopAt(o.buf.Head())
+}
+
+func BadZ1pop(b *z1buf) int {
+	return b.PopAt(b.Head())
+}
